@@ -58,9 +58,11 @@ def noneBody : B → R B
       let v' ← setValidity v len false
       let fs' ← pushDefaultKAll fs 1
       pure (.struct p (len + 1) v' fs' cached next seen)
-  | b@(.dictionary p idx vals index) => do
-      let idx' ← ctx b.ann (pushNone idx)
-      pure (.dictionary p idx' vals index)
+  | b@(.dictionary p idx vals index) =>
+      if idx.isNullable = false then fail "Cannot push null for non-nullable array"
+      else do
+        let idx' ← ctx b.ann (pushNone idx)
+        pure (.dictionary p idx' vals index)
   | .union _ _ _ _ _ => fail "serialize_unit/serialize_none is not supported"
 
 /-- `k` × `serialize_default` of `b` without the `.ctx(self)` wrapper (copy of the arms of `pushDefaultK`) -/
@@ -107,11 +109,14 @@ def defaultBody : B → Nat → R B
   | b@(.union p fs types offs cur), k =>
     match fs with
     | .nil => if k = 0 then .ok b else fail "Could not find variant 0 in Union"
-    | .cons c m rest => do
-      let c' ← pushDefaultK c k
-      let c0 := cur.getD 0 0
-      pure (.union p (.cons c' m rest) (types ++ List.replicate k 0)
-        (offs ++ (List.range k).map (fun (i : Nat) => c0 + (i : Int))) (cur.set 0 (c0 + k)))
+    | .cons _ _ _ =>
+      let j := firstReal fs
+      if k ≠ 0 ∧ j > 127 then fail "out of range integral type conversion attempted"
+      else do
+        let fs' ← pushDefaultKAt fs j k
+        let cj := cur.getD j 0
+        pure (.union p fs' (types ++ List.replicate k (j : Int))
+          (offs ++ (List.range k).map (fun (i : Nat) => cj + (i : Int))) (cur.set j (cj + k)))
 
 /-- `x.serialize(Mut(b))` without the `.ctx(self)` wrapper of `b` (copy of the arms of `push`; the `Some` / newtype
 layers are transparent in `push` — they are never the blamed call) -/
@@ -211,7 +216,10 @@ def valBody (ext : Ext) (b : B) : SVal → R B
   | .f64 x => pushScalar ext b (.f64 x)
   | .char x => pushScalar ext b (.char x)
   | .str x => pushScalar ext b (.str x)
-  | .unitStruct x => pushScalar ext b (.unitStruct x)
+  | .unitStruct _ =>
+    match b with
+    | .unknownVariant _ => fail "Unknown variant does not support serialize_unit_struct"
+    | _ => noneBody b
 
 def callBody (ext : Ext) (b : B) : Call → R B
   | .val x => valBody ext b x
@@ -236,6 +244,9 @@ theorem push_eq_body (ext : Ext) (b : B) (x : SVal) (hs : ∀ v, x ≠ .some v) 
   | newtypeStruct n v => exact absurd rfl (hn n v)
   | none => rw [push, pushNone_eq_body]; rfl
   | unit =>
+    unfold push valBody
+    cases b <;> first | rfl | exact pushNone_eq_body _
+  | unitStruct n =>
     unfold push valBody
     cases b <;> first | rfl | exact pushNone_eq_body _
   | _ => unfold push valBody; rfl
